@@ -12,6 +12,9 @@ import Dmn.Model.Temporal
 * `(c15 ym y1 m1 d1 y2 m2 d2)` — `years and months duration(from, to)`.
 * `(c15 dtd n)` / `(c15 ymd n)` — duration components.
 * `(c15 prop DT o)` — year … second, time offset, timezone.
+* `(c15 dtprops DT o)` — every property of a date-time incl. `weekday` (model), the written local
+  components with the calendar's weekday (specification), and day of year, ISO week, ISO week year,
+  Zeller weekday (specification of the calendar built-ins).
 * `(c15 durops kind a b)` — `+`, unary `-`, binary `-`, `=`, `<` on two durations.
 -/
 
@@ -158,6 +161,31 @@ def handle (args : List Sexp) : String :=
         | some n => toString (Sexp.ofChars n)
         | none => "none"
       s!"({x.date.y} {x.date.m} {x.date.d} {x.time.h} {x.time.mi} {x.time.s} {off} {tz})"
+    | _, _ => "(error bad-args)"
+  | [.atom "dtprops", x, ox] =>
+    match dt? x, oracle? ox with
+    | some x, some ox =>
+      let pv : PropVal → String := fun v => match v with
+        | .num n => toString n
+        | .offset secs => toString secs
+        | .str n => toString (Sexp.ofChars n)
+        | .null => "none"
+        | .panic => "panic"
+      let names : List PropName := [.year, .month, .day, .weekday, .hour, .minute, .second, .timeOffset, .timezone]
+      let m := " ".intercalate (names.map (fun n => pv (dtProperty x ox n)))
+      -- specification: the written (local) components, the calendar for the weekday and the
+      -- calendar built-ins; the offset of a named zone is the oracle's
+      let z := daysFromCivil x.date.y x.date.m x.date.d
+      let wk := isoWeekOfDay z
+      let off := match x.time.z with
+        | .utc => "0"
+        | .localZ => "none"
+        | .offset n => toString n
+        | .zone _ => optStr (fun (n : Int) => toString n) ox
+      let tz := match x.time.z with
+        | .zone n => toString (Sexp.ofChars n)
+        | _ => "none"
+      s!"(({m}) ({x.date.y} {x.date.m} {x.date.d} {Cal.weekday z} {x.time.h} {x.time.mi} {x.time.s} {off} {tz}) ({dayOfYear x.date.y x.date.m x.date.d} {wk.2} {wk.1} {(zeller x.date.y x.date.m x.date.d + 5) % 7 + 1}))"
     | _, _ => "(error bad-args)"
   | [.atom "durops", .atom kind, x, y] =>
     match Sexp.int? x, Sexp.int? y with
